@@ -159,19 +159,23 @@ type Reader struct{ br *bufio.Reader }
 
 func NewReader(r io.Reader) *Reader { return &Reader{br: bufio.NewReaderSize(r, 64*1024)} }
 
+// ErrBareNewline: a simple string, error or length line contains a CR or LF that is not the terminating CRLF.
+// RESP forbids it: a line-oriented client would see more (or other) replies than were sent.
+var ErrBareNewline = errors.New("resp: line contains a bare CR or LF")
+
 func (r *Reader) line() ([]byte, error) {
-	var out []byte
-	for {
-		b, err := r.br.ReadBytes('\n')
-		out = append(out, b...)
-		if err != nil {
-			return nil, err
-		}
-		if len(out) >= 2 && out[len(out)-2] == '\r' {
-			return out[:len(out)-2], nil
-		}
-		// a bare LF inside a simple string: keep reading (only reachable on malformed input)
+	b, err := r.br.ReadBytes('\n')
+	if err != nil {
+		return nil, err
 	}
+	if len(b) < 2 || b[len(b)-2] != '\r' {
+		return nil, ErrBareNewline
+	}
+	b = b[:len(b)-2]
+	if bytes.IndexByte(b, '\r') >= 0 {
+		return nil, ErrBareNewline
+	}
+	return b, nil
 }
 
 // Read reads one value. Inline commands are returned as arrays of bulks.
